@@ -181,6 +181,37 @@ def check_case_typed(ctx, V):
     for w in ('WHEN', 'THEN', 'ELSE', 'END'):
         ctx.ob('R13.4', f'get_cases-handles:{w}', f'{f.mod.relpath}:{f.node.lineno}', f'Case.get_cases switches mode on {w}', w in used,
                f'{w} is not handled: the written {w} part is attributed to the wrong component')
+    # mode machine of get_cases: WHEN opens a (condition, value) pair in CONDITION mode, THEN switches to VALUE,
+    # ELSE opens a (None, value) pair in VALUE mode, END stops collecting
+    consts = {}
+    for s_ in f.node.body:
+        if isinstance(s_, ast.Assign) and is_name(s_.targets[0]) and isinstance(s_.value, ast.Constant):
+            consts[s_.targets[0].id] = s_.value.value
+    loops = [s_ for s_ in f.node.body if isinstance(s_, ast.For)]
+    want = {'WHEN': ('CONDITION', '([], [])'), 'THEN': ('VALUE', None), 'ELSE': ('VALUE', '(None, [])'), 'END': (None, None)}
+    seen = {}
+    if loops:
+        gd = Guards(f.node)
+        for n in ast.walk(loops[0]):
+            if isinstance(n, ast.Assign) and is_name(n.targets[0], 'mode'):
+                facts = [e for e, p_ in gd.facts(n) if e != '|' and p_]
+                for w in want:
+                    if any(e.endswith(f"match(T.Keyword, '{w}')") for e in facts):
+                        val = src(n.value)
+                        apps = [src(a.value.args[0]) for a in gd.stmt_of and [] or []]
+                        seen[w] = val
+            if isinstance(n, ast.Call) and isinstance(n.func, ast.Attribute) and n.func.attr == 'append' and is_name(n.func.value, 'ret'):
+                facts = [e for e, p_ in gd.facts(n) if e != '|' and p_]
+                for w in want:
+                    if any(e.endswith(f"match(T.Keyword, '{w}')") for e in facts):
+                        seen[w + ':append'] = src(n.args[0])
+    for w, (mode, app) in want.items():
+        got = seen.get(w)
+        okm = (got == mode) or (mode is None and got == 'None') or (got is not None and consts.get(got) is not None and got == mode)
+        oka = app is None or seen.get(w + ':append') == app
+        ctx.ob('R13.4', f'get_cases-mode:{w}', f'{f.mod.relpath}:{f.node.lineno}',
+               f'on {w}: mode becomes {mode}' + (f' and {app} is appended' if app else ''), bool(okm and oka),
+               f'mode assigned: {got}, appended: {seen.get(w + ":append")}: the written {w} part lands in the wrong component')
     # TypedLiteral tables
     c = repo.cls('sqlparse.sql.TypedLiteral')
     ev = ME.Evaluator(ctx, c.mod, c)
